@@ -309,12 +309,23 @@ func (db *RockDB) ZAdd(ts int64, key []byte, args ...common.ScorePair) (int64, e
 	defer wb.Clear()
 
 	var num int64
+	// a member given more than once is written once, with its last score
+	var lastPos map[string]int
+	if len(args) > 1 {
+		lastPos = make(map[string]int, len(args))
+		for i := 0; i < len(args); i++ {
+			lastPos[string(args[i].Member)] = i
+		}
+	}
 	for i := 0; i < len(args); i++ {
 		score := args[i].Score
 		member := args[i].Member
 
 		if err := common.CheckKeySubKey(key, member); err != nil {
 			return 0, err
+		}
+		if lastPos != nil && lastPos[string(member)] != i {
+			continue
 		}
 		if n, err := db.zSetItem(table, keyInfo.VerKey, score, member, wb); err != nil {
 			return 0, err
@@ -467,9 +478,13 @@ func (db *RockDB) ZRem(ts int64, key []byte, members ...[]byte) (int64, error) {
 	defer wb.Clear()
 
 	var num int64 = 0
+	seen := newSeenArgs(len(members))
 	for i := 0; i < len(members); i++ {
 		if err := common.CheckKeySubKey(key, members[i]); err != nil {
 			return 0, err
+		}
+		if seen.seenBefore(members[i]) {
+			continue
 		}
 		if n, err := db.zDelItem(table, keyInfo.VerKey, members[i], wb); err != nil {
 			return 0, err
